@@ -7,7 +7,10 @@
 // 1904..2099 fast path limits, leap days, first/last second of a day) and include instants off the millisecond grid.
 // Strings for Date(String) are (a) well-formed ISO 8601 / HTTP date-times with all zone variants and 0..9 fraction
 // digits, (b) one- or two-character mutations and truncations of those, (c) random strings over the alphabet of the
-// property (digits T Z : - + . letters space) up to length 40.
+// property (digits T Z : - + . letters space) up to length 40.  Date(text, format) gets formats with number
+// placeholders, literals and '?' wildcards and texts that match, are mutated, or end before the format does.
+// --avoid <hazards>: SubMsBeforeMidnight (no instants less than 0.5 ms before midnight), PatternWildcardPastEnd (no text
+// on which a '?' of the format would have to match beyond the end of the text).
 #include <asl/Date.h>
 #include <asl/String.h>
 #include "vrec.h"
